@@ -57,7 +57,43 @@ fn add_typed(c: &mut ConcatSource, x: &Spec, prebuilt: BoxSource) {
   }
 }
 
+/// `ConcatSource::new` over typed (unboxed) leaf items, when all children are leaves of one kind
+fn typed_new(children: &[Spec]) -> Option<ConcatSource> {
+  if children.is_empty() {
+    return None;
+  }
+  if children.iter().all(|c| matches!(c, Spec::Raw(_) | Spec::RawBytes(_))) {
+    return Some(ConcatSource::new(
+      children
+        .iter()
+        .map(|c| match c {
+          Spec::Raw(t) => raw_leaf(t),
+          Spec::RawBytes(b) => raw_bytes_leaf(b),
+          _ => unreachable!(),
+        })
+        .collect::<Vec<RawSource>>(),
+    ));
+  }
+  if children.iter().all(|c| matches!(c, Spec::Orig { .. })) {
+    return Some(ConcatSource::new(
+      children
+        .iter()
+        .map(|c| match c {
+          Spec::Orig { text, name } => OriginalSource::new(text.clone(), name.clone()),
+          _ => unreachable!(),
+        })
+        .collect::<Vec<OriginalSource>>(),
+    ));
+  }
+  None
+}
+
 pub fn build_concat(how: u8, children: &[Spec]) -> ConcatSource {
+  if how == 3 {
+    if let Some(c) = typed_new(children) {
+      return c;
+    }
+  }
   match how {
     // `new` over *typed* ConcatSource items (flattened by `new` itself) when every child is one
     3 if !children.is_empty() && children.iter().all(|c| matches!(c, Spec::Concat { .. })) => ConcatSource::new(
@@ -197,6 +233,11 @@ pub fn build_concat_observed(how: u8, children: &[Spec], observe: &mut dyn FnMut
 }
 
 fn build_concat_observed_with(how: u8, children: &[Spec], observe: &mut dyn FnMut(&dyn rspack_sources::Source), stale: bool) -> ConcatSource {
+  if how == 3 {
+    if let Some(c) = typed_new(children) {
+      return c;
+    }
+  }
   match how {
     3 if !children.is_empty() && children.iter().all(|c| matches!(c, Spec::Concat { .. })) => {
       let items: Vec<ConcatSource> = children
